@@ -182,7 +182,7 @@ theorem persist_dup_leaves_empty_tx (c : Conn) (msg : Bytes) (h : Handle) (dir :
   have htx := exec_inTx c (.insertMsg q h.key dir msg)
   simp only [Stmt.isDML, Bool.or_true, if_true, Stmt.run, insMsg, hdup] at hr hw hc htx
   unfold persistP
-  simp only [hn, Prog.run, hr, persistExc]
+  simp only [hn, Prog.run, hr, persistFail]
   exact ⟨trivial, hw, hc, htx⟩
 
 /-! non-vacuity: a concrete process with two sessions, a store, a renumbering, killed after 9 calls -/
